@@ -11,8 +11,8 @@ import (
 func init() {
 	register(&Spec{
 		ID:          "C19",
-		Loads:       []LoadSpec{{Patterns: []string{"./routing", "./routing/route", "./graph/db/models"}}},
-		Explanation: "Decides the shape of the checks a returned route depends on: an edge is selected only if the amount it must carry (net amount plus the capped inbound fee) is within capacity / max / min HTLC and, for local channels, within the available bandwidth, and (network) the policy is enabled; the search adopts a predecessor only below the fee-limit, zero-probability, CLTV-limit, minimum-probability and onion-size checks, all evaluated on the amount computed after the non-negative node fee clamp; the clamp has one form in edge selection and in the search; newRoute recomputes per-hop amounts and time locks with the same fee functions and deltas and hands their totals to the route; the route's fee accessors are differences of per-hop amounts.",
+		Loads:       []LoadSpec{{Patterns: []string{"./routing", "./routing/route", "./graph/db/models", "./graph/db", "./lnrpc/routerrpc"}}},
+		Explanation: "Decides the shape of the checks a returned route depends on: an edge is selected only if the amount it must carry (net amount plus the capped inbound fee) is within capacity / max / min HTLC and, for local channels, within the available bandwidth, and (network) the policy is enabled; the search adopts a predecessor only below the fee-limit, zero-probability, CLTV-limit, minimum-probability and onion-size checks, all evaluated on the amount computed after the non-negative node fee clamp; the clamp has one form in edge selection and in the search; newRoute recomputes per-hop amounts and time locks with the same fee functions and deltas and hands their totals to the route; the route's fee accessors are differences of per-hop amounts; the CLTV budget handed to the search (RestrictParams.CltvLimit) is the caller's limit minus the final delta the route construction adds on top of the hops, at every place that fills it (RequestRoute, the callers of NewRouteRequest), and a delta enters that reserve only after it was compared with the limit; the inbound fee of a directed channel (graph cache, kv and sql store) is a function of the node's current outgoing policy alone.",
 		NotDecided: []string{
 			"that a returned route satisfies every hop's policy on arbitrary graphs (backward accumulation with integer rounding)", "probability estimation and mission control", "bandwidth races between route computation and HTLC dispatch",
 			"ignored-node/edge and outgoing-channel restrictions inside the graph session (only the last-hop and self-cycle guards of the search loop are decided)",
